@@ -94,19 +94,19 @@ func compareOutside(key string, sp *packages.Package, sf *ast.File, sfset *token
 		return res
 	}
 	// token stream of each declaration (comments dropped) with the directive / generated closure replaced by a marker
-	srcBytes, err1 := os.ReadFile(sfset.Position(sf.Pos()).Filename)
-	genBytes, err2 := os.ReadFile(gp.Fset.Position(gf.Pos()).Filename)
+	srcBytes, err1 := os.ReadFile(sfset.PositionFor(sf.Pos(), false).Filename)
+	genBytes, err2 := os.ReadFile(gp.Fset.PositionFor(gf.Pos(), false).Filename)
 	if err1 != nil || err2 != nil {
 		res.Bad = "cannot read files"
 		return res
 	}
 	render := func(fset *token.FileSet, content []byte, d ast.Decl, sites []ast.Expr) []string {
-		lo, hi := fset.Position(d.Pos()).Offset, fset.Position(d.End()).Offset
+		lo, hi := fset.PositionFor(d.Pos(), false).Offset, fset.PositionFor(d.End(), false).Offset
 		var buf bytes.Buffer
 		cur := lo
 		for _, s := range sites {
-			a, b := fset.Position(s.Pos()).Offset, fset.Position(s.End()).Offset
-			if a < lo || b > hi {
+			a, b := fset.PositionFor(s.Pos(), false).Offset, fset.PositionFor(s.End(), false).Offset
+			if a < lo || b > hi || a < cur || b > len(content) {
 				continue
 			}
 			buf.Write(content[cur:a])
